@@ -74,8 +74,10 @@ def open_kind(kind: str, rng, ctx, overflow: bool = False) -> Opened:
             backing = as_handle(braw)
             bname = b"base.raw"
             layers.append(RawLayer(braw))
+        # header lengths of old (104, no compression-type byte) and current (112) writers, with header extensions following
+        exts = [wq.extension(0x6803F857, bytes(rng.randrange(1, 256) for _ in range(48 * rng.randrange(1, 4))))] if rng.random() < 0.6 else None
         img, _, meta = wq.build(rng, cluster_bits=cb, size=size, views=views, version=3, extl2=ext, placement="shuffle",
-                                backing_name=bname, tuned_frac=0.1)
+                                backing_name=bname, tuned_frac=0.1, header_length=rng.choice([104, 112, 112]), extensions=exts)
         fh = _h(img)
         q = QCow2(fh, backing_file=backing)
         if kind == "qcow2-snap":
@@ -176,7 +178,10 @@ def open_kind(kind: str, rng, ctx, overflow: bool = False) -> Opened:
         states = ["A" if rng.random() < (0.15 if n > 1000 else 0.7) else "U" for _ in range(n)]
         states[-1] = "A"
         sf, layer, meta = wvhd.build_dynamic(rng, block_size=bs, nblocks=n, tail_cut_sectors=rng.choice([0, rng.randrange(0, bs // SECTOR)]),
-                                             states=states, placement="shuffle", tag=tag)
+                                             states=states, placement="shuffle", tag=tag,
+                                             # blocks stored around and beyond 1 TiB into the file (table entries >= 2^31)
+                                             far_sector=rng.choice([0, 0, (1 << 31) - 40, 1 << 31, 0xC0000000]),
+                                             table_place=rng.choice(["front", "front", "behind", "middle"]))
         fh = _h(sf)
         v = VHD(fh)
         return Opened(v, Model(meta["size"], [layer]), SECTOR, v.disk.read_sectors, handles=[fh], info={"blocks": n, "block_size": bs},
